@@ -192,6 +192,11 @@ def x12n_document(param, src_file, fd_997, fd_html,
 
             #errh.set_cur_line(src.get_cur_line())
             valid &= node.is_valid(seg, errh)
+            # element errors of the trailer itself are only known now: settle the accept codes again
+            if seg.get_seg_id() == 'SE':
+                errh.close_st_loop(node, seg, src)
+            elif seg.get_seg_id() == 'GE':
+                errh.close_gs_loop(node, seg, src)
             #erx.handleErrors(src.pop_errors())
             #erx.handleErrors(errh.get_errors())
             #errh.reset()
